@@ -43,7 +43,7 @@ AR = [
 
 ASSUMPTIONS = [
     "default resolvers only; custom resolver callbacks are outside the property",
-    "abstract alphabet of 28 citation kinds (real objects extracted once from snippets, shallow-copied per position)",
+    "abstract alphabet of 29 citation kinds (real objects extracted once from snippets, shallow-copied per position)",
     "BFS canonical state = (set of full-citation classes seen, placeholder-page count capped at 2, class of last resolution); "
     "soundness of this abstraction is checked by comparing all one-step futures of two representative histories per state",
 ]
@@ -51,15 +51,16 @@ ASSUMPTIONS = [
 
 def rule(pid):
     return (
-        "seq: every sequence of length <= L over the 28-symbol alphabet (and <= L' over the 17 most interacting symbols) "
+        "seq: every sequence of length <= L over the 29-symbol alphabet (and <= L' over the 18 most interacting symbols) "
         "through the real resolve_citations; bfs: explicit-state search over canonical resolver states to fix-point, every "
         "transition executes the real resolver on representative+[event]; docs: lists extracted by get_citations from all "
-        "concatenations of <= k ambiguous-document fragments (all prefixes for C08). distinct = distinct sequence/text; "
+        "concatenations of <= k ambiguous-document fragments (all prefixes for C08); pumped: every head of <= 3 core symbols followed by "
+        "100-520 copies of a filler symbol (size-dependent code paths). distinct = distinct sequence/text; "
         "non-trivial = sequence with a non-full citation after at least one full citation."
     )
 
 
-BFS_DROP_QUICK = ("fullU", "fullC3")  # structurally covered by fullP/fullQ and fullC in the sequence parts
+BFS_DROP_QUICK = ("fullU", "fullC3", "fullA0")  # structurally covered by fullP/fullQ and fullC in the sequence parts
 G = {}
 
 
@@ -69,6 +70,8 @@ def bfs_names(tier):
 
 def setup(tier, seed):
     R.build_alphabet()
+    if tier in ("quick", "thorough"):
+        _TIER["t"] = tier
     if tier != "replay" and "bfs" not in G:
         # state-graph discovery in the parent (one real resolver run per transition); the oracle and the
         # canon-soundness differential are evaluated on every transition in parallel shards
@@ -77,7 +80,7 @@ def setup(tier, seed):
 
 
 def bounds(tier):
-    return {"alphabet": R.NAMES, "L_full": L_FULL[tier], "core_alphabet": R.CORE12, "L_core": L_CORE[tier], "bfs": "fix-point over " + str(len(bfs_names(tier))) + " symbols", "doc_fragments": len(AR), "doc_depth": DOC_DEPTH[tier]}
+    return {"alphabet": R.NAMES, "L_full": L_FULL[tier], "core_alphabet": R.CORE12, "L_core": L_CORE[tier], "bfs": "fix-point over " + str(len(bfs_names(tier))) + " symbols", "doc_fragments": len(AR), "doc_depth": DOC_DEPTH[tier], "pumped": {"head_len": 3, "fillers": PUMP_FILLERS, "copies": PUMP_LENGTHS[tier]}}
 
 
 def shards(tier, seed):
@@ -93,7 +96,26 @@ def shards(tier, seed):
             out.append({"part": "seq-core", "alpha": "core", "prefix": [a, b], "L": L_CORE[tier], "minlen": L_FULL[tier] + 1})
     for sh in docspace.shards_for(AR, DOC_DEPTH[tier], 1):
         out.append({"part": "docs", **sh, "depth": DOC_DEPTH[tier]})
+    for a in range(m):
+        out.append({"part": "pumped", "first": a, "L": 3})
     return out
+
+
+PUMP_FILLERS = ["unknown", "fullB", "idNoPin", "law"]
+PUMP_LENGTHS = {"quick": [100, 130], "thorough": [64, 100, 130, 257, 520]}
+_TIER = {"t": "quick"}
+
+
+def pumped_sequences(first, L):
+    """Every sequence s (first symbol fixed, |s| <= L over the core alphabet) followed by n copies of a filler
+    symbol: long lists whose interesting part is short (size-dependent code paths, e.g. 'large input' modes)."""
+    core = R.CORE12
+    for extra in range(0, L):
+        for tail in itertools.product(core, repeat=extra):
+            s_ = [core[first]] + list(tail)
+            for f in PUMP_FILLERS:
+                for n in PUMP_LENGTHS[_TIER["t"]]:
+                    yield s_, f, n
 
 
 def check_objs(pid, objs):
@@ -205,6 +227,39 @@ def run_shard(sh, pid):
             st.outcomes.add(h64(sig))
             for lab, det in out:
                 st.violation({"part": sh["part"], "seq": seq}, f"{lab}: {det} :: sequence={seq}", label=f"seq-{lab}")
+        return st
+    if sh["part"] == "pumped":
+        for s_, f, n in pumped_sequences(sh["first"], sh["L"]):
+            seq = s_ + [f] * n
+            objs = R.instantiate(seq)
+            try:
+                whole = resolve_citations(objs)
+                pre = resolve_citations(objs[: len(s_)])
+            except Exception:  # noqa: BLE001
+                continue
+            st.evaluations += 1
+            st.traces += 1
+            st.transitions += len(seq)
+            p["evaluations"] += 1
+            k = h64([s_, f, n])
+            st.states.add(k)
+            if nontrivial_seq(objs[: len(s_)]):
+                st.nontrivial.add(k)
+                if not st.samples:
+                    st.sample({"part": "pumped", "head": s_, "filler": f, "copies": n})
+            out = []
+            if pid == "C08":
+                gw, _, _ = R.index_view(objs, whole)
+                gp, _, _ = R.index_view(objs[: len(s_)], pre)
+                restr = [[i for i in g if i < len(s_)] for g in gw]
+                restr = [g for g in restr if g]
+                if gp != restr:
+                    out.append(("prefix", f"resolve(prefix of length {len(s_)})={gp} but resolve(whole list of {len(seq)}) restricted to it={restr}"))
+            else:
+                out = R.ORACLES[pid](objs, whole)
+            st.outcomes.add(h64(R.grouping_signature(objs[: len(s_)], pre)))
+            for lab, det in out:
+                st.violation({"part": "pumped", "seq": s_ + [f] * n}, f"{lab}: {det} :: head={s_} followed by {n} x {f}", label=f"pumped-{lab}")
         return st
     # docs
     seen = set()
